@@ -64,7 +64,16 @@
 //!              values and any assignment through them is rejected; `break` / `continue` in `for` loops and loop labels
 //!              (`forRangeExit` / `forEachExit`: the early-exit channel of the body carries a `LoopExit`; a labelled jump
 //!              out of an inner loop is `LoopExit.ret` of the outer loop's `LoopExit`); `for (&k, v) in btree.iter_mut()`
-//!              (a loop over the positions; `v` is an alias of the value of the `i`-th binding)
+//!              (a loop over the positions; `v` is an alias of the value of the `i`-th binding);
+//!              `BTreeSet<uN>` as the ascending list of its elements (`new contains insert remove len is_empty iter`),
+//!              `match &mut place {..}` / `if let .. = &mut place`, `if let Entry::Vacant(e) = map.entry(k) { .. e.insert(v) .. }`
+//!              (≡ `if !map.contains_key(k) { .. map.insert(k, v) .. }`), `btree.pop_first()` / `first_key_value()`,
+//!              `e?` in a fn returning `Option`, a tail `if` / `match` whose branches assign outer variables;
+//!              types of different crates that share a simple name (the later one is keyed `<crate>::<Name>`; Lean names
+//!              are the simple name in the module's namespace), or-patterns whose alternatives bind the same variables,
+//!              `let x = &mut <call>` (the variable owns the temporary), `io::Cursor::new(slice)` as a `ReadCursor`,
+//!              const-generic array length of `let x = f(..)?` inferred from the array-typed struct / variant field that
+//!              `x` later initialises, a diverging macro as the value of a `Result` match arm
 //!   not supported: `loop`, valued `break`, closures, generics, traits, signed integers, floats,
 //!              references stored in data, `ref mut`, `&mut` parameters other than `self`, unsigned integers and the
 //!              octets / io cursors.
